@@ -18,8 +18,7 @@ type Result struct {
 	// ErrAssignTarget: the failure is an `=` after a non-assignable left side
 	// (the diagnostic may name any line from that `=` to the end of the text).
 	ErrAssignTarget bool
-	// ErrParamLimit: the failure is a 256th parameter (ErrTok is its name; the
-	// preceding comma's line is also acceptable).
+	// ErrParamLimit: the failure is the comma behind the 255th parameter (ErrTok).
 	ErrParamLimit bool
 	// ErrReserved: a built-in name used as declared variable/function name.
 	ErrReserved bool
@@ -129,11 +128,12 @@ func (p *parser) funDecl() bn.Stmt {
 	var params []string
 	if p.peek().Kind != bn.TRParen {
 		for {
-			if len(params) >= 255 {
+			params = append(params, p.expect(bn.TIdent).Text)
+			if p.peek().Kind == bn.TComma && len(params) >= 255 {
+				// at most 255 parameters: the comma behind the 255th is the first token that no valid program continues
 				p.res.ErrParamLimit = true
 				p.fail()
 			}
-			params = append(params, p.expect(bn.TIdent).Text)
 			if !p.accept(bn.TComma) {
 				break
 			}
